@@ -69,7 +69,7 @@ func reads(r *core.Rand, size int, k int) []string {
 func (prop) Gen(r *core.Rand, tier string) []core.Case {
 	nSmall, nMed, nBig := 130, 12, 6
 	if tier == "thorough" {
-		nSmall, nMed, nBig = 1500, 150, 50
+		nSmall, nMed, nBig = 700, 60, 18
 	}
 	C := fc.C
 	cs := []core.Case{
